@@ -194,6 +194,15 @@ func (c *conn) sread() (f *Frag, err error) {
 
 	f.Peer.FragDoneNumber++
 
+	if f.Error.Nil() && f.Type == codec.RspError {
+		switch f.Peer.Type {
+		case codec.ReqMget, codec.ReqMset, codec.ReqDel:
+			// redis answered this fragment with an error: the reply cannot be merged, the whole
+			// request is answered with that error
+			f.Error = codec.Error(f.RspBody)
+		}
+	}
+
 	if f.Error.Nil() {
 		switch f.Peer.Type {
 		case codec.ReqMget:
